@@ -161,6 +161,9 @@ def runModel (sc : Script) : List String := Id.run do
       let ch := chainOf cl.heap c.fuel cl.head
       out := out ++ [s!"state {l} : {showEntries (ch.map (fun n => (n, (cl.heap n).cb)))}"]
       if cl.ub then out := out ++ [s!"ub {l}"]
+    -- ledger: one stored callback object per attached callback, nothing else retained, no double destruction
+    let total := (List.range sc.nlists).foldl (fun acc l => acc + (chainOf (c.lists l).heap c.fuel (c.lists l).head).length) 0
+    out := out ++ [s!"ledger {total} 0"]
   out := out ++ [s!"wraps {c.wraps}"]
   return out
 
@@ -180,6 +183,8 @@ def runSpec (sc : Script) : List String := Id.run do
     if !halted then out := out ++ ["fuel"]
     for l in List.range sc.nlists do
       out := out ++ [s!"state {l} : {showEntries ((c.lists l).map (fun e => (e.id, e.cb)))}"]
+    let total := (List.range sc.nlists).foldl (fun acc l => acc + (c.lists l).length) 0
+    out := out ++ [s!"ledger {total} 0"]
   return out
 
 def addLine (sc : Script) (line : String) : Script :=
